@@ -26,6 +26,8 @@ struct C13 : Prop {
 		cfg::GenOpts o; o.max_boards = thorough ? 4 : 3; o.max_trains = 3;
 		cfg::World w = cfg::gen_world(r, o);
 		cfg::install(plan, w, r);
+		// the boards' feature confirmations do not always come back in the order of the requests: now and then one is late and overtaken
+		if (r.chance(250)) { J bus = plan["bus"]; J td = J::arr(); for (int q = 0, n = (int) r.range(1, 3); q < n; q++) { J e = J::arr(); e.push((int) MSG_FEATURE); e.push((int) r.range(1, 14)); e.push((int) r.range(20, 400)); td.push(e); } bus.set("type_delay_once", td); plan.set("bus", bus); }
 		J cfgs = plan["configs"];
 		std::map<std::string, int> kinds;
 		int nm = (int) r.range(1, 3);
